@@ -34,7 +34,7 @@ ALLOWED_REF = {"CallStack.pop", "TraceManager.clear_with_descs", "TraceManager.c
 
 
 @rule("C08.R1", "C08", "PAIR", "data writes are paired with graph nodes; data deleted only for removed nodes",
-      min_instances=6, also=("C06",))
+      min_instances=6, also=("C06", "C07",))
 def r1(ctx, R):
     """`data[k] = v` only in CellsImpl._store_value; its callers add the node (pop on the
     evaluation path, add_node in set_value_from_key); `del data[k]` only in on_clear_trace;
